@@ -241,6 +241,36 @@ def handleConcM (sched : String) (scripts : List String) : Option String := do
   let rs ← mapM? (fun s => match s with | SSess.finished r => some (showSRes r) | _ => none) ss
   pure (" ; ".intercalate rs)
 
+/-- the harness's `X-ECHOC` (initiating side): starts with "hi", answers its two challenges with
+the reversed challenge -/
+def echoClientMech : Mech := fun hist =>
+  match hist with
+  | [] => { kind := .more, resp := [104, 105] }
+  | [c] => { kind := .more, resp := c.reverse }
+  | [_, c] => { kind := .done, resp := c.reverse }
+  | _ => { kind := .otherErr }
+
+/-- initiating sessions with different advertised lists and exchanges on one feature value -/
+def handleConcX (sched : String) (sessions : List String) : Option String := do
+  let sch ← mapM? (fun x : String => x.toNat?) (splitList sched)
+  let scs ← mapM? (fun (s : String) =>
+    match s.splitOn ":" with
+    | [a, p] => do
+      let adv ← decNames a
+      let peer ← mapM? parseCEv (splitList p)
+      pure (adv, peer)
+    | _ => none) sessions
+  let plain : Mech := fun _ => { kind := .done, resp := 0 :: "user".toUTF8.toList ++ 0 :: "secret".toUTF8.toList }
+  let cm := [("X-ECHOC", echoClientMech), ("PLAIN", plain)]
+  let n := scs.length
+  let fin := (List.range n).flatMap fun i => List.replicate 6 i
+  let ss := runSchedC cm (scs.map fun ap => CSess.init ap.1 ap.2) (sch ++ fin)
+  let rs ← mapM? (fun s => match s with
+    | CSess.finished r =>
+      some s!"{showBool r.authn} {if r.used.isNone && r.err == .nomech then "nomech" else r.err.toString} {joinList (r.sent.map showCSent)}"
+    | _ => none) ss
+  pure (" ; ".intercalate rs)
+
 def handleConcC (users : List String) : Option String := do
   let us ← mapM? (fun x => hexDecode x) users
   let rs := us.map fun u =>
@@ -262,6 +292,13 @@ def handleProbe : List String → Option String
     let a ← decNames adv
     let r := gs2Row k c a
     pure s!"{if r.1 == "-" then "-" else encName r.1} {r.2}"
+  | ["failc", _, c] =>
+    let cond := if c == "-" then "" else c
+    some s!"0 1 {hexEncodeStr (failureText cond)}"
+  | ["optstls", _, ver, _] => do
+    let v ← ver.toNat?
+    let o := tlsOpt (some ⟨v, []⟩)
+    pure s!"1 {showBool o.isSome} {match o with | some s => s.version | none => 0} 1"
   | ["opts", role, kind, adv] => do
     let k ← kind.toNat?
     let a ← decNames adv
@@ -277,6 +314,8 @@ def handle (args : List String) : Option String :=
   | "gaterun" :: _ => handleProbe args
   | "gs2" :: _ => handleProbe args
   | "opts" :: _ => handleProbe args
+  | "optstls" :: _ => handleProbe args
+  | "failc" :: _ => handleProbe args
   | ["cli", cm, adv, steps, peer] => handleCli "-" "-" cm adv steps peer
   | ["clis", cm, adv, steps, peer] => handleCli "-" "-" cm adv steps peer
   | ["clie", budget, cancel, cm, adv, steps, peer] => handleCli budget cancel cm adv steps peer
@@ -298,6 +337,7 @@ def handle (args : List String) : Option String :=
   | "concs" :: sched :: accept :: creds => handleConcS sched accept creds
   | "concc" :: _sched :: users => handleConcC users
   | "concm" :: sched :: scripts => handleConcM sched scripts
+  | "concx" :: sched :: sessions => handleConcX sched sessions
   | ["srvw", n, sm, steps, perm, peer] => do
     let budget ← n.toNat?
     handleSrv false (some budget) sm steps perm peer
